@@ -65,6 +65,35 @@ def config_guard(chk, repo):
     chk.ob("G0.config", "library sources scanned for configuration-dependent code (cfg other than test/doc, profile overrides)", n_files >= 5, key="G0:files", detail="%d files in %s" % (n_files, list(roots)))
 
 
+def state_guard(chk, prog):
+    """G1: every rule here judges one call from an arbitrary (symbolic) state of the *values involved*; state kept in a
+    process-global or thread-local cell would be carried between calls outside that model.  A static is accepted when it is
+    immutable and holds no interior mutability, or is a lazily initialised immutable value (lazy_static's Lazy / LazyLock
+    around a type without interior mutability; lazy_static's zero-sized accessor type)."""
+    crates = {"C08": ("flipdot_core", "flipdot_testing", "flipdot"), "C09": ("flipdot_core", "flipdot"), "C10": ("flipdot_core", "flipdot"), "C11": ("flipdot_core", "flipdot"),
+              "C12": ("flipdot_core", "flipdot_testing"), "C13": ("flipdot_core", "flipdot_testing"), "C14": ("flipdot_core", "flipdot_testing"),
+              "C16": ("flipdot_core", "flipdot_serial"), "C17": ("flipdot_core", "flipdot_serial", "flipdot_testing", "flipdot"), "C18": ("flipdot_core", "flipdot_serial"),
+              "C20": ("flipdot_core", "flipdot_serial", "flipdot_testing")}.get(chk.pid, ("flipdot_core",))
+    import re
+    cell = re.compile(r"\b(Cell|RefCell|UnsafeCell|OnceCell|OnceLock|Once|Mutex|RwLock|Atomic\w+|LocalKey|Storage|Condvar)\b")
+    n = 0
+    for c, s_ in prog.statics:
+        if c not in crates:
+            continue
+        n += 1
+        ty = s_["ty"]
+        inner = ty
+        m = re.match(r"^(?:lazy_static::lazy::Lazy|std::sync::(?:lazy_lock::)?LazyLock|core::cell::(?:lazy::)?LazyCell)<(.*)>$", ty)
+        if m:
+            inner = m.group(1).split(",")[0]
+        bad = s_.get("mutable") or s_.get("thread_local") or bool(cell.search(inner))
+        if bad:
+            w = s_.get("span") or {}
+            chk.unproven("G1.state", "static:%s" % s_["path"], "process-global or thread-local mutable state (static %s: %s): behaviour may depend on earlier calls, which the per-call analysis does not model"
+                         % (s_["path"].split("::")[-1], ty[:80]), "%s:%s" % (w.get("file"), w.get("line")))
+    chk.ob("G1.state", "statics of the crates this property depends on hold no state between calls (%d static(s): immutable or lazily initialised constants)" % n, True, key="G1:scan")
+
+
 class Check:
     def __init__(self, pid, tier="quick", level="proof"):
         self.pid = pid
